@@ -4946,3 +4946,22 @@ for _p, _r in (('C01', 'C01.1'), ('C02', 'C02.1'), ('C11', 'C11.4')):
     M(_p, 'canon-fast-path-guard-lf-in-prefix-only', PGP, _CAN, _FAST % "b'\\n' not in subject[:64]", _r)
     M(_p, 'canon-fast-path-guard-inverted', PGP, _CAN, _FAST % "b'\\n' in subject", _r)
     M(_p, 'canon-fast-path-guard-or-type', PGP, _CAN, _FAST % "isinstance(subject, bytearray) or b'\\n' not in subject", _r)
+
+# =============================================================================================== C18 wave 5 (w4 seeded shapes, twin C16-ref16)
+T('C18', 'twin-new-packet-attached-at-creation', PGP, "        sigpkt = SignatureV4()\n        sigpkt.header.tag = 2", "        sigpkt = sig._signature = SignatureV4()\n        sigpkt.header.tag = 2",
+  more=[(PGP, "        sigpkt.subpackets.addnew('Issuer', _issuer=signer)\n", "        sig._name_issuer_keyid(signer)\n"),
+        (PGP, "            sigpkt.halg = halg\n\n        sig._signature = sigpkt\n        return sig\n", "            sigpkt.halg = halg\n\n        return sig\n\n    def _name_issuer_keyid(self, keyid):\n        self._signature.subpackets.addnew('Issuer', _issuer=keyid)\n\n    def _name_issuer_fingerprint(self, fingerprint):\n        self._signature.subpackets.addnew('IssuerFingerprint', hashed=True, _version=4, _issuer_fpr=fingerprint)\n"),
+        (PGP, "                sig._signature.subpackets.addnew('IssuerFingerprint', hashed=True, _version=4, _issuer_fpr=self.fingerprint)", "                sig._name_issuer_fingerprint(self.fingerprint)")])
+M('C18', 'new-issuer-helper-names-wrong-argument', PGP, "        sigpkt = SignatureV4()\n        sigpkt.header.tag = 2", "        sigpkt = sig._signature = SignatureV4()\n        sigpkt.header.tag = 2",
+  'C18.7', more=[(PGP, "        sigpkt.subpackets.addnew('Issuer', _issuer=signer)\n", "        sig._name_issuer_keyid(signer[-8:])\n"),
+        (PGP, "            sigpkt.halg = halg\n\n        sig._signature = sigpkt\n        return sig\n", "            sigpkt.halg = halg\n\n        return sig\n\n    def _name_issuer_keyid(self, keyid):\n        self._signature.subpackets.addnew('Issuer', _issuer=keyid)\n")])
+M('C18', 'pkalg-deprecated-rsa-ids-folded', PK, "        self._pkalg = PubKeyAlgorithm(val)\n\n        _c = {\n            # True means public", "        self._pkalg = PubKeyAlgorithm(val)\n        if self._pkalg in {PubKeyAlgorithm.RSAEncrypt, PubKeyAlgorithm.RSASign}:\n            self._pkalg = PubKeyAlgorithm.RSAEncryptOrSign\n\n        _c = {\n            # True means public", 'C18.11')
+M('C18', 'pkalg-setter-renumbers-elgamal-alias', PK, "        self._pkalg = PubKeyAlgorithm(val)\n\n        _c = {\n            # True means public", "        self._pkalg = PubKeyAlgorithm(16 if val == 20 else val)\n\n        _c = {\n            # True means public", 'C18.11')
+T('C18', 'twin-intended-recipient-temporaries', PGP, "                sig._signature.subpackets.addnew('IntendedRecipient', hashed=True, version=4,\n                                                 intended_recipient=intended_recipient.fingerprint)",
+  "                named = intended_recipient\n                fpr = named.fingerprint\n                sig._signature.subpackets.addnew('IntendedRecipient', True, intended_recipient=fpr, version=4)")
+M('C18', 'intended-recipient-resolved-to-encryption-subkey', PGP, "                sig._signature.subpackets.addnew('IntendedRecipient', hashed=True, version=4,\n                                                 intended_recipient=intended_recipient.fingerprint)",
+  "                rcpt = next((k for k in intended_recipient.subkeys.values()), intended_recipient)\n                sig._signature.subpackets.addnew('IntendedRecipient', hashed=True, version=4,\n                                                 intended_recipient=rcpt.fingerprint)", 'C18.7')
+M('C18', 'intended-recipient-names-signer', PGP, "                sig._signature.subpackets.addnew('IntendedRecipient', hashed=True, version=4,\n                                                 intended_recipient=intended_recipient.fingerprint)",
+  "                sig._signature.subpackets.addnew('IntendedRecipient', hashed=True, version=4,\n                                                 intended_recipient=self.fingerprint)", 'C18.7')
+M('C18', 'intended-recipient-primary-of-named-subkey', PGP, "                sig._signature.subpackets.addnew('IntendedRecipient', hashed=True, version=4,\n                                                 intended_recipient=intended_recipient.fingerprint)",
+  "                sig._signature.subpackets.addnew('IntendedRecipient', hashed=True, version=4,\n                                                 intended_recipient=(intended_recipient.parent or intended_recipient).fingerprint)", 'C18.7')
